@@ -16,6 +16,8 @@ func init() {
 			"C11.clone — in the binding function every store to a protobuf message field (also inside the callback handed to Walk) goes through the deep copy made by proto.Clone, never through the parsed query that was passed in; " +
 			"C11.template — program-wide census: every store to a field of a generated message struct outside the generated package writes into a message created in that function (parser literals, a fresh ParseQuery result, the clone), and the statement types' stored query is assigned only at construction; hence a prepared statement's template cannot change between executions; " +
 			"C11.bounds — every non-constant index into a slice that came in as a parameter in the parser package is bounded below and above by dominating tests relating it to the slice's length (symbolic comparison of loads of the same field path and linear offsets); " +
+			"C11.bindall — the callback with which the binding function walks the clone never stops the walk (every return is the constant after which Walk continues, read off Walk's own test of the callback's result) and the binding function does not return before the walk unless no values were supplied: a placeholder number may occur several times, all occurrences are bound; " +
+			"C11.stmtquery — every statement a prepare function of the driver returns carries the result of ParseQuery applied to that call's own query parameter (directly, via a parse helper or a constructor), never a statement or parse taken from a map or field; " +
 			"C11.arity — both statement types compare the number of supplied values with the statement's placeholder count before binding, on every path, and return an error otherwise; C11.numinput — that count is the highest placeholder number: a running maximum (initialised to 0, updated only under `placeholder > maximum`) over a Walk whose callback never stops early. " +
 			"NOT decided: that the n-th argument lands exactly in $n for all n (value-level); only the index expression, its bounds and the cloning are structural.",
 		assumptions: []string{"proto.Clone makes a deep copy", "database/sql passes arguments in order", "go/ssa, dominance"},
@@ -27,6 +29,9 @@ func init() {
 			"C12.width — the single total-count row is built only under a test that the group-by list is empty (a function of the result alone cannot distinguish 'group-by, nothing matched' from 'no group-by'); " +
 			"C12.errflow — errors of ParseQuery, of the protobuf-to-query conversion, of Index.Execute and of the RPC propagate out of Prepare/Query (tested against nil, no success return and no retry on the failing branch); " +
 			"C12.cols — the column list is the group-by list followed by the constant \"count\"; the column-type methods split at len(cols)-1 with TEXT before and BIGINT at it; Next writes the count at index len(fields) and the fields at their own indices. " +
+			"For rows stored as []driver.Value the same invariants are decided where the rows are built (every row placed into the row list is the group's values, appended in field-list order, followed by that group's count converted to int64, or the total count alone) and Next must copy element i of the stored row to index i. " +
+			"C12.rowsfresh — the row list (and, for slice rows, every row in it) is storage created for this result. " +
+			"C12.bindall, C12.stmtquery — as C11.bindall and C11.stmtquery: the rows returned are those of the query text given, with every occurrence of a placeholder bound. " +
 			"C12.bind — the query executed is the deep copy of the statement's template with the arguments written into the copy only, and nothing else modifies parsed queries (so repeated executions of a prepared statement see their own arguments); C12.cacheowner — a cache requested in the DSN is created for the one index being opened. " +
 			"NOT decided: that row values and order equal the library's result (values; group order is passed through unchanged by the same loop, not proven equal); DSN option handling beyond C17.",
 		assumptions: []string{"database/sql calls Rows methods as documented", "go/ssa, dominance"},
@@ -63,6 +68,8 @@ func runC11(c *Ctx) {
 		return
 	}
 	bindRules(c, "C11.clone", "C11.template")
+	bindAllRule(c, "C11.bindall")
+	stmtQueryRule(c, "C11.stmtquery")
 	c11Rest(c)
 }
 
@@ -118,26 +125,31 @@ func bindRules(c *Ctx, cloneRule, templateRule string) {
 	}
 	c.r.Stats["message_field_writes_outside_generated_code"] = n
 	// statement template fields assigned only at construction
+	// (the field is found by its type, *updogv1.Query, in the statement struct or in a struct it embeds: the statement
+	// kinds may share a base struct that holds the query)
 	for _, tn := range []string{"fileStmt", "grpcStmt"} {
 		t := c.w.namedType(pkgDriver, tn)
-		q := structFieldNamed(t, "q")
-		if q == nil {
-			c.r.undecided(templateRule, tn+".q", "statement type or its query field not found")
+		qs := stmtQueryFields(t)
+		if len(qs) == 0 {
+			c.r.undecided(templateRule, tn+".q", "statement type not found, or it has no field that holds the parsed query (*updogv1.Query), directly or in an embedded struct")
 			continue
 		}
-		bad := 0
-		for _, fn := range c.w.ModFuncs {
-			for _, e := range fr.writes(fn) {
-				for _, f := range e.fields() {
-					if f == q && !e.Fresh {
-						bad++
-						c.r.bad(templateRule, tn+".q: store in "+safeFname(fn), "the statement's query template is assigned after construction", []string{c.w.ipos(e.Ins)})
+		for _, q := range qs {
+			key := tn + "." + q.name
+			bad := 0
+			for _, fn := range c.w.ModFuncs {
+				for _, e := range fr.writes(fn) {
+					for _, f := range e.fields() {
+						if f == q.fld && !e.Fresh {
+							bad++
+							c.r.bad(templateRule, key+": store in "+safeFname(fn), "the statement's query template is assigned after construction", []string{c.w.ipos(e.Ins)})
+						}
 					}
 				}
 			}
-		}
-		if bad == 0 {
-			c.r.ok(templateRule, tn+".q", "assigned only when the statement is constructed")
+			if bad == 0 {
+				c.r.ok(templateRule, key, "assigned only when the statement is constructed")
+			}
 		}
 	}
 }
@@ -386,7 +398,11 @@ func runC12(c *Ctx) {
 	// executed query is the bound copy of an unmodified template and the cache belongs to this one index
 	if c.a.ReplacePH != nil {
 		bindRules(c, "C12.bind", "C12.bind")
+		if c.a.Walk != nil {
+			bindAllRule(c, "C12.bindall")
+		}
 	}
+	stmtQueryRule(c, "C12.stmtquery")
 	cacheOwnerRule(c, "C12.cacheowner")
 }
 
@@ -415,8 +431,13 @@ func c12Width(c *Ctx) {
 		if !ok {
 			return
 		}
-		// a store whose value is result.Count: this builds the total-count row
-		ld, ok := peelConv(st.Val).(*ssa.UnOp)
+		// a store whose value is result.Count: this builds the total-count row (the count may be converted and, when
+		// rows are stored as []driver.Value, boxed into the interface right here)
+		val := st.Val
+		if mi, isMI := val.(*ssa.MakeInterface); isMI {
+			val = mi.X
+		}
+		ld, ok := peelConv(val).(*ssa.UnOp)
 		if !ok || ld.Op != token.MUL {
 			return
 		}
@@ -613,7 +634,19 @@ func c12Cols(c *Ctx) {
 		c.r.undecided(rule, "rows.Next", "method not found")
 		return
 	}
+	// the rows are kept either as structs {fields, count}, from which Next assembles the row, or already in the shape
+	// Next hands out: []driver.Value = the group's values followed by the count
+	storage, kind := rowsStorage(rowsT)
+	if kind == rowsSlice {
+		c12ColsSliceRows(c, rule, rowsT, storage, next)
+		return
+	}
 	rowT := c.w.namedType(pkgDriver, "row")
+	if kind == rowsStruct {
+		if n := namedOf(storage.Type().Underlying().(*types.Slice).Elem()); n != nil {
+			rowT = n
+		}
+	}
 	fieldsF, countF := structFieldNamed(rowT, "fields"), structFieldNamed(rowT, "count")
 	okCount, okFields := false, false
 	var dest ssa.Value
@@ -776,7 +809,8 @@ func numInputRule(c *Ctx, rule string) {
 // buffer that outlives the call (a field of the connection or statement, a parameter bound to one): database/sql allows
 // a second query on the same driver connection object while the rows of the first are still being read (the file
 // connection is shared by all pool slots; sql.Tx), so recycled storage lets a later query overwrite rows an earlier
-// reader has not fetched yet.
+// reader has not fetched yet. When the rows are slices themselves ([]driver.Value), the same holds for every row placed
+// into the list.
 func c12RowsFresh(c *Ctx) {
 	const rule = "C12.rowsfresh"
 	rowsT := c.w.namedType(pkgDriver, "rows")
@@ -784,18 +818,9 @@ func c12RowsFresh(c *Ctx) {
 		c.r.undecided(rule, "<anchor>", "rows type not found")
 		return
 	}
-	var fld *types.Var
-	if st, ok := rowsT.Underlying().(*types.Struct); ok {
-		for i := 0; i < st.NumFields(); i++ {
-			if sl, ok := st.Field(i).Type().Underlying().(*types.Slice); ok {
-				if _, isStruct := sl.Elem().Underlying().(*types.Struct); isStruct {
-					fld = st.Field(i)
-				}
-			}
-		}
-	}
+	fld, kind := rowsStorage(rowsT)
 	if fld == nil {
-		c.r.undecided(rule, "<anchor>", "the rows type has no slice-of-row field")
+		c.r.undecided(rule, "<anchor>", "the rows type has no slice-of-row field (rows are structs or slices of driver.Value)")
 		return
 	}
 	fr := newFresh(c)
@@ -809,13 +834,35 @@ func c12RowsFresh(c *Ctx) {
 			if !ok {
 				return
 			}
+			const staleRowMsg = "a row of the result is kept in a slice that was not created for this row (a recycled buffer, a field, a caller's slice): a later row or a later query on the same connection overwrites values an earlier reader has not fetched yet"
+			if ia, isIA := st.Addr.(*ssa.IndexAddr); isIA && kind == rowsSlice {
+				// rows[i] = row: a row that is a slice itself is storage of its own as well
+				if ld, isLd := ia.X.(*ssa.UnOp); isLd && ld.Op == token.MUL && path(ld.X).lastField() == fld {
+					n++
+					key := fmt.Sprintf("%s: store rows.%s[i]#%d", safeFname(fn), fld.Name(), n)
+					c.r.check(isNilConst(st.Val) || fr.level(st.Val) >= shallow, rule, key, "the row is created for this result", staleRowMsg, c.w.ipos(st))
+				}
+				return
+			}
 			fa, ok := st.Addr.(*ssa.FieldAddr)
 			if !ok || fieldOf(fa.X.Type(), fa.Field) != fld {
 				return
 			}
 			n++
 			key := fmt.Sprintf("%s: store rows.%s#%d", safeFname(fn), fld.Name(), n)
-			if isNilConst(st.Val) || fr.level(st.Val) >= shallow {
+			// rows that are slices themselves: every row placed into the list is storage of its own as well
+			staleRow := false
+			if kind == rowsSlice {
+				placed, _ := rowsPlaced(st.Val, fld)
+				for _, rv := range placed {
+					if !isNilConst(rv) && fr.level(rv) < shallow {
+						staleRow = true
+					}
+				}
+			}
+			if staleRow {
+				c.r.bad(rule, key, staleRowMsg, []string{c.w.ipos(st)})
+			} else if isNilConst(st.Val) || fr.level(st.Val) >= shallow {
 				c.r.ok(rule, key, "row storage is created for this result", c.w.ipos(st))
 			} else {
 				c.r.bad(rule, key, "the rows of a result are kept in storage that was not created for this result (a recycled buffer, a field, a caller's slice): a later query on the same connection can overwrite rows that an earlier reader has not fetched yet", []string{c.w.ipos(st)})
